@@ -468,6 +468,11 @@ func c03Generated(c *core.C) *sbom.Document {
 	edges, roots, shape := gen.Shape(r, c.K, ids, types)
 	c.Cover("generated-shape:" + shape)
 	doc.NodeList.Edges = edges
+	if r.Intn(3) == 0 {
+		// the same graph stored differently: several records per source and type, interleaved with other sources'
+		doc.NodeList.Edges = gen.SplitPresentation(r, doc.NodeList).Edges
+		c.Cover("generated-edges-split-and-interleaved")
+	}
 	if len(roots) == 0 || r.Intn(4) != 0 {
 		roots = []string{ids[0]} // mostly single-rooted so that CycloneDX can be written
 	}
